@@ -114,7 +114,8 @@ def processDoc (vectors : Bool) (tbl : List Name) (ds : Dicts) (doc : Nat) (d : 
 def processDocs (vectors : Bool) (tbl : List Name) (b : Batch) : Dicts :=
   (b.zipIdx).foldl (fun ds p => processDoc vectors tbl ds p.2 p.1) (tbl.map (fun _ => []))
 
-/-! ### `writeDicts`: terms ascending; doc values from the term walk -/
+/-! ### `writeDicts`: terms ascending; doc values from the term walk, then the
+    extra doc values (encoded geo shapes) -/
 
 def insertTerm (x : Bytes × List Entry) : List (Bytes × List Entry) → List (Bytes × List Entry)
   | [] => [x]
@@ -130,6 +131,36 @@ def docTermMap (numDocs : Nat) (terms : List (Bytes × List Entry)) : List (Nat 
 
 def includeDocValues (b : Batch) (n : Name) : Bool :=
   b.any (fun d => d.fields.any (fun f => f.name = n && f.dv))
+
+/-- One step of `realloc`'s `visitField` on `extraDocValues[docNum][fieldID]`
+    (`n` = the field's name): an instance of the field that is a geo-shape field
+    overwrites the entry with its encoded shape.  Only ordinary fields can be
+    geo-shape fields. -/
+def shapeStep (n : Name) (acc : Option Bytes) (f : FieldIn) : Option Bytes :=
+  if f.kind = .fld ∧ f.name = n then
+    match f.shape with
+    | some s => some s      -- `extraDocValues[docNum][fieldID] = f.EncodedShape()`
+    | none => acc           -- not a geo-shape field
+  else acc
+
+/-- `extraDocValues[docNum][fieldID]` after `realloc`: the instances of the
+    document are visited in order (composites first, then the ordinary fields),
+    so the last geo-shape instance of the field wins. -/
+def extraDocValue (d : DocIn) (n : Name) : Option Bytes := d.visitOrder.foldl (shapeStep n) none
+
+/-- The extra doc value of document number `k` for field `n`, as a list of values. -/
+def extraAt (b : Batch) (n : Name) (k : Nat) : List Bytes :=
+  match b[k]? with
+  | none => []
+  | some d => (extraDocValue d n).toList
+
+/-- The doc-value loop of `writeDicts`: for EVERY document number of the batch,
+    the document's terms (`docTermMap[docNum]`, possibly none) followed by the
+    field's extra doc value of that document, if there is one; the document gets
+    an entry when the result is not empty. -/
+def addShapes (b : Batch) (n : Name) (dtm : List (Nat × List Bytes)) : List (Nat × List Bytes) :=
+  ((List.range b.length).map (fun k =>
+      (k, ((dtm.find? (·.1 = k)).map (·.2)).getD [] ++ extraAt b n k))).filter (fun p => !p.2.isEmpty)
 
 /-! ### Stored fields (`writeStoredFields`) -/
 
@@ -210,7 +241,7 @@ def buildSeg (vectors : Bool) (mode : Nat) (b : Batch) : Seg :=
       let terms := sortTerms p.2
       { name := p.1,
         terms := terms.map (fun t => (t.1, PostRep.general t.2)),
-        dv := if n ≠ 0 ∧ includeDocValues b p.1 then some (docTermMap n terms) else none,
+        dv := if n ≠ 0 ∧ includeDocValues b p.1 then some (addShapes b p.1 (docTermMap n terms)) else none,
         thes := if n ≠ 0 ∧ hasThes b p.1 then some (buildThes b p.1) else none,
         vec := if vectors ∧ n ≠ 0 then buildVec b p.1 else none }),
     stored := b.map (storedDoc tbl) }
